@@ -3,6 +3,7 @@ package hamt
 import (
 	"context"
 	"fmt"
+	"sync"
 
 	bitfield "github.com/ipfs/go-bitfield"
 	"github.com/ipfs/go-unixfsnode/data"
@@ -31,6 +32,7 @@ type _UnixFSHAMTShard struct {
 	data         data.UnixFSData
 	lsys         *ipld.LinkSystem
 	bitfield     bitfield.Bitfield
+	mu           sync.Mutex // guards shardCache and cachedLength
 	shardCache   map[ipld.Link]*_UnixFSHAMTShard
 	cachedLength int64
 }
@@ -148,7 +150,9 @@ func AttemptHAMTShardFromNode(ctx context.Context, nd ipld.Node, lsys *ipld.Link
 }
 
 func (n UnixFSHAMTShard) loadChild(pbLink dagpb.PBLink) (UnixFSHAMTShard, error) {
+	n.mu.Lock()
 	cached, ok := n.shardCache[pbLink.FieldHash().Link()]
+	n.mu.Unlock()
 	if ok {
 		return cached, nil
 	}
@@ -163,7 +167,9 @@ func (n UnixFSHAMTShard) loadChild(pbLink dagpb.PBLink) (UnixFSHAMTShard, error)
 	if und.data.FieldFanout().Must().Int() != n.data.FieldFanout().Must().Int() {
 		return nil, fmt.Errorf("hamt child shard fanout (%d) does not match its parent's (%d)", und.data.FieldFanout().Must().Int(), n.data.FieldFanout().Must().Int())
 	}
+	n.mu.Lock()
 	n.shardCache[pbLink.FieldHash().Link()] = und
+	n.mu.Unlock()
 	return und, nil
 }
 
@@ -268,8 +274,11 @@ func (n UnixFSHAMTShard) ListIterator() ipld.ListIterator {
 // Length returns the length of a list, or the number of entries in a map,
 // or -1 if the node is not of list nor map kind.
 func (n UnixFSHAMTShard) length() (int64, error) {
-	if n.cachedLength != -1 {
-		return n.cachedLength, nil
+	n.mu.Lock()
+	cachedLength := n.cachedLength
+	n.mu.Unlock()
+	if cachedLength != -1 {
+		return cachedLength, nil
 	}
 	maxPadLen := maxPadLength(n.data)
 	total := int64(0)
@@ -294,7 +303,9 @@ func (n UnixFSHAMTShard) length() (int64, error) {
 			total += cl
 		}
 	}
+	n.mu.Lock()
 	n.cachedLength = total
+	n.mu.Unlock()
 	return total, nil
 }
 
